@@ -156,3 +156,84 @@ def run_factory(cfg):
     rec = recorder.build(cfg)
     rec.run(cfg["horizon"])
     return rec
+
+# ------------------------------------------------------------------ the family run used by ./check
+
+import multiprocessing
+import node_judges
+
+NODE_BUDGET = {"quick": 160, "thorough": 4000}
+
+def _factory_chunk(args):
+    seed, n = args
+    quiet()
+    rng = random.Random(seed)
+    out = []
+    for _ in range(n):
+        cfg = gen_factory(rng)
+        out.append(eval_factory(cfg))
+    return out
+
+def eval_factory(cfg):
+    """run one factory under the recorder; returns a picklable summary"""
+    try:
+        rec = run_factory(cfg)
+    except Exception as ex:
+        return dict(cfg=cfg, error=f"{type(ex).__name__}: {ex}", nodes=[], viol=[], crash=None, nacts=0, moves=0)
+    nodes = []
+    for nid in range(len(rec.nodes)):
+        ins, outs = act_lines(rec, nid)
+        nodes.append((node_header(rec, nid), ins, outs))
+    V = node_judges.judge_factory(rec, cfg)
+    if rec.crash is None:
+        V += node_judges.finalize_and_judge_states(rec, cfg, cfg["horizon"])
+    # reproducibility (C19): the same configuration again, in the same interpreter
+    try:
+        rec2 = run_factory(cfg)
+        if [(a["t"], a["node"], a["proc"], a["calls"]) for a in rec.acts] != [(a["t"], a["node"], a["proc"], a["calls"]) for a in rec2.acts]:
+            V.append(("C19", "repro", "two runs of the same model with the same seed differ"))
+    except Exception as ex:
+        V.append(("C19", "repro", f"second run failed: {type(ex).__name__}"))
+    return dict(cfg=cfg, error=None, nodes=nodes, viol=V, crash=rec.crash, nacts=len(rec.acts), moves=len(rec.moves),
+                sample=[(a["t"], a["node"], a["proc"], a["calls"]) for a in rec.acts[:12]])
+
+def corpus_factories():
+    import glob
+    out = []
+    for f in sorted(glob.glob(os.path.join(VERIF, "corpus", "*.factory.json"))):
+        try: out.append((os.path.relpath(f, VERIF), json.load(open(f))))
+        except Exception: pass
+    return out
+
+def run_node_family(tier, seed):
+    quiet()
+    n = NODE_BUDGET[tier]
+    nproc = 1 if n <= 200 else 14
+    chunks = [(seed * 7919 + 104729 * i + 17, n // nproc + (1 if i < n % nproc else 0)) for i in range(nproc)]
+    facs = [eval_factory(cfg) for _, cfg in corpus_factories()]
+    ncorp = len(facs)
+    if nproc == 1:
+        facs += _factory_chunk(chunks[0])
+    else:
+        with multiprocessing.Pool(nproc) as pool:
+            for part in pool.map(_factory_chunk, chunks): facs += part
+    batches = []; index = []
+    for fi, f in enumerate(facs):
+        for ni, (h, ins, outs) in enumerate(f["nodes"]):
+            batches.append((h, ins)); index.append((fi, ni))
+    model_error = None
+    try:
+        res = run_node_models(batches)
+    except Exception as ex:
+        model_error = str(ex)[:400]; res = [None] * len(batches)
+    div = []      # (factory index, node index, activation index)
+    for (fi, ni), r in zip(index, res):
+        if r is None: continue
+        outs = facs[fi]["nodes"][ni][2]
+        for k, (a, b) in enumerate(zip(outs, r)):
+            if a != b:
+                div.append((fi, ni, k, a, b)); break
+        else:
+            if len(outs) != len(r): div.append((fi, ni, min(len(outs), len(r)), "<length>", "<length>"))
+    return dict(factories=facs, corpus=ncorp, divergences=div, model_error=model_error,
+                activations=sum(f["nacts"] for f in facs), node_runs=len(batches))
